@@ -20,7 +20,8 @@ FIRST_BASED = ("textDocument/hover", "textDocument/definition", "textDocument/re
 
 
 def is_file_name(name):
-    return "://" not in name and not name.startswith("untitled:")
+    """the name maps to a file path (a project-relative name or a file:// uri)"""
+    return not name.startswith("untitled:") and ("://" not in name or name.startswith("file://"))
 
 
 # ----------------------------------------------------------------------------- canonical forms
@@ -183,7 +184,7 @@ def clamp(v):
 def fresh_server(mos, overlay, workdir):
     """a freshly started server that is given only the final contents: every file of the overlay is what it finds, the entry
     point is opened (one analysis, one round of publishDiagnostics)."""
-    s = LspServer(mos, disk={n: t for n, t in overlay.items() if is_file_name(n)}, workdir=workdir)
+    s = LspServer(mos, disk={n: t for n, t in overlay.items() if is_file_name(n) and "://" not in n}, workdir=workdir)
     if ENTRY in overlay:
         s.did_open(ENTRY, overlay[ENTRY])
     return s
@@ -613,7 +614,9 @@ def run(chk):
     os.makedirs(workdir, exist_ok=True)
     out = Outcome()
     n_hist = 360 if thorough else 40
-    hists = load_corpus() + [g_hist.gen_history(rng) for _ in range(n_hist)]
+    # VERIF_C14_SKIP_CORPUS=1 is for self-tests of the generators only (tools/mutcheck): registered runs always start with the corpus
+    corpus = [] if os.environ.get("VERIF_C14_SKIP_CORPUS") else load_corpus()
+    hists = corpus + [g_hist.gen_history(rng) for _ in range(n_hist)]
     seen_fail_kinds = {}
 
     def report(kind, what, hist_for_replay, origin):
@@ -632,7 +635,9 @@ def run(chk):
             if key in seen_fail_kinds:
                 seen_fail_kinds[key] += 1
                 continue
-            small = shrink(mos, {"disk": hist["disk"], "events": hist["events"][:idx + 1]}, workdir, kind)
+            small = {"disk": hist["disk"], "events": hist["events"][:idx + 1]}
+            if "server timeout" not in what:      # a silent server costs the full timeout per attempt: keep the history as it is
+                small = shrink(mos, small, workdir, kind)
             report(kind, what, small, origin)
     gfails = []
     positions_grid(rng, mos, model, workdir, 12 if thorough else 3, out, gfails)
